@@ -141,7 +141,16 @@ def build_conn(pre, cls=RecConn):
 def frame_view(c, b):
     m, _, _ = Codec(FIXProtocol44()).decode(b, silent=True)
     if m is None:
-        return {"undecodable": b.decode("latin-1")}
+        # frames the real decoder refuses (e.g. empty CompIDs of a witness model, a body tag 8): read the
+        # first occurrence of each tag straight from the tag=value text, so the cross-check still compares
+        # type / MsgSeqNum / PossDup of what was written
+        first = {}
+        for fld in b.decode("latin-1").split("\x01"):
+            k, sep, v = fld.partition("=")
+            if sep and k not in first:
+                first[k] = v
+        return {"undecodable": b.decode("latin-1"), "type": first.get("35"), "seq": first.get("34"),
+                "possdup": first.get("43"), "tags": first}
     d = {"type": str(m.msg_type), "seq": m.get(34, None), "possdup": m.get(43, None)}
     d["tags"] = {k: (v if isinstance(v, str) else "#grp/err#") for k, v in m.tags.items()}
     return d
